@@ -20,6 +20,9 @@ def declare(c):
                      'corner set is preserved', floor=4)
     c.rule('C17.R3', 'containsRegion answers True exactly when all its (non-strict) obligations hold: 4 sides for '
                      'rectangles, the 4 corners for a rectangle in a disc, centre distance + radius for discs', floor=12)
+    c.rule('C17.R5', 'not-a-number parameters (the API accepts them): a region with a NaN coordinate contains no point, so it must '
+                     'never be reported to contain a region and never to contain a point - guards are written so that an '
+                     'unordered comparison refuses', floor=10)
     c.rule('C17.R4', 'each containsRegion handles every region class and rejects anything else', floor=4)
 
 
@@ -208,6 +211,41 @@ def region_rules(ctx, I):
     check_predicate(ctx, I, 'C17.R3', 'CircularRegion.containsRegion', 'disc>=disc', res, disc_atoms)
 
 
+def nan_rules(ctx, I):
+    """one parameter of the outer region at a time is NaN: containsPoint and containsRegion must answer False on every path"""
+    cases = []
+    for outer, ofields in ((RECT, ('x1', 'y1', 'x2', 'y2')), (CIRC, ('cx', 'cy', 'r'))):
+        for fld in ofields:
+            cases.append((outer, fld, None))
+            for inner in (RECT, CIRC):
+                cases.append((outer, fld, inner))
+    for outer, fld, inner in cases:
+        st = State()
+        O = mkrect(st, 'R', I) if outer == RECT else mkcirc(st, 'R', I)
+        I.nan_symbols = set(['R.' + fld])
+        try:
+            if inner is None:
+                res = I.run_method(st, outer, 'containsPoint', O, [sym(I, 'px'), sym(I, 'py')])
+                what = 'containsPoint'
+            else:
+                X = mkrect(st, 'X', I) if inner == RECT else mkcirc(st, 'X', I)
+                res = I.run_method(st, outer, 'containsRegion', O, [X])
+                what = 'containsRegion(%s)' % ('rectangle' if inner == RECT else 'disc')
+        finally:
+            I.nan_symbols = set()
+        for (s, v) in res:
+            ctx.instance('C17.R5', (outer, fld, what, repr(v)[:20]))
+            if isinstance(v, Raised):
+                continue
+            for x in live_alts(s, v):
+                if x is not False:
+                    ctx.report('C17.R5', '%s.%s' % (outer, what.split('(')[0]), '%s with NaN %s answers %r' % (what, fld, x),
+                               'a %s whose %s is not a number contains no point (every comparison with it is False), yet %s answers '
+                               '%r: the guard is phrased negatively ("not (a < b or ...)") or skips the comparison - during a print '
+                               'an update to such a region would be accepted and un-exclude everything the old region covered'
+                               % ('rectangle' if outer == RECT else 'disc', fld, what, x))
+
+
 def exhaustive_rule(ctx, I):
     classes = [c for c in (RECT, CIRC) if ctx.model.lookup(c, 'containsPoint')[1] is not None]
     others = sorted(c for c, ci in ctx.model.classes.items() if 'containsPoint' in ci.methods)
@@ -241,6 +279,7 @@ def run(ctx, tier):
     ctor_rules(ctx, I)
     region_rules(ctx, I)
     exhaustive_rule(ctx, I)
-    ctx.assume('real arithmetic (no rounding at touching borders); radius >= 0')
+    nan_rules(ctx, I)
+    ctx.assume('real arithmetic (no rounding at touching borders); radii of any sign; NaN parameters only through C17.R5')
     ctx.assume('that the four corners / extreme points imply containment of the whole inner region is a convexity '
                'argument over the reals and is not decided here')
